@@ -4,7 +4,7 @@
    the tie executes).  The descriptor of a field - key, required, multiline, delim, strip, kind, as dumped from
    the compiled Go struct tags - plays the role of C9G's "kind"; a value carries its descriptor. *)
 From Coq Require Import List Ascii String Bool Arith NArith ZArith Lia.
-Require GS V3 V11 A1 D3 R2 R2u L10 C9 C9G SchemaDefs.
+Require GS V3 V11 A1 D3 R2 R2u L10 C9 C9G C9F SchemaDefs.
 Import ListNotations.
 
 Definition str := list ascii.
@@ -158,8 +158,9 @@ Definition active (sch : SchemaDefs.schema) : list fd := filter (fun f => negb (
 Definition gschema (sch : SchemaDefs.schema) : C9G.schema fd := map gdesc (active sch).
 
 (* control.Unmarshal of one paragraph: Some record | None (error) *)
+(* (since the repair of the r13 finding field-name-case the lookup is Paragraph.lookupFold: C9F) *)
 Definition decode_para (sch : SchemaDefs.schema) (p : R2.para) : option (list cval) :=
-  C9G.decode fd cval czero cdecode (gschema sch) (R2.values p).
+  C9F.decode_fold fd cval czero cdecode (gschema sch) (R2.values p).
 Definition decode_text (sch : SchemaDefs.schema) (text : str) : option (list cval) :=
   match R2u.next_u R2.empty_para [] (GS.lines_of text) with
   | R2.RPara p _ => decode_para sch p
@@ -172,7 +173,7 @@ Definition to_r2 (p : C9G.para) : R2.para := {| R2.order := C9G.order p; R2.valu
 Definition convert_para (sch : SchemaDefs.schema) (has_para : bool) (found : R2.para) (r : list cval) : option R2.para :=
   if marshal_ok r then
     let f0 := if has_para then {| C9G.order := R2.order found; C9G.values := R2.values found |} else {| C9G.order := []; C9G.values := [] |} in
-    Some (to_r2 (C9G.convert fd cval cmarshal (gschema sch) r f0))
+    Some (to_r2 (C9F.convert_fold fd cval cmarshal (gschema sch) r f0))
   else None.
 Definition marshal_text (sch : SchemaDefs.schema) (has_para : bool) (found : R2.para) (r : list cval) : option str :=
   option_map R2u.write_para_u (convert_para sch has_para found r).
@@ -191,4 +192,9 @@ Theorem CX_decode_pointwise : forall sch p r,
   C9G.decode fd cval czero cdecode (gschema sch) p = Some r <->
   Forall2 (C9G.field_spec fd cval czero cdecode p) (gschema sch) r.
 Proof. intros sch. exact (C9G.C10_decode_pointwise fd cval czero cdecode (gschema sch)). Qed.
+(* the decoder the code runs (fold lookup) *)
+Theorem CX_decode_fold_pointwise : forall sch p r,
+  C9F.decode_fold fd cval czero cdecode (gschema sch) p = Some r <->
+  Forall2 (C9F.field_spec_fold fd cval czero cdecode p) (gschema sch) r.
+Proof. intros sch. exact (C9F.decode_fold_pointwise fd cval czero cdecode (gschema sch)). Qed.
 Print Assumptions CX_passthrough_order.
